@@ -221,7 +221,7 @@ def sched_stage(ctx, thorough):
             ds = []
             while len(ds) < 2:
                 m, types = g.datagram(budget=500)
-                if any(x in (1, 2) for x in types) and m not in ds:
+                if any(x in (1, 2) for x in types) and m not in ds and len(m) <= 1400:      # (fits the receive buffer whole)
                     ds.append(m)
             pool = {"data": ds, "bad": [bad]}
         data, used = [], {}
@@ -328,6 +328,12 @@ def check(ctx, want="C12"):
         for k in range(nrun):
             workers = [1, 2, 3, 4][k % 4]
             jobs.append(make_job(ctx, proto, workers, ctx.seed * 1000 + k, 60 if thorough else 24))
+        # dynamic workers: all but one worker are told to quit while datagrams keep arriving (what they hold or give back
+        # on their way out must not disturb the others)
+        for kk, (wn, rn) in enumerate([(4, 3), (3, 2), (4, 3)] + ([(2, 1), (4, 3), (3, 2)] if thorough else [])):
+            j = make_job(ctx, proto, wn, ctx.seed * 1000 + 300 + kk, 60 if thorough else 32)
+            j["retire"] = rn
+            jobs.append(j)
     # mirroring enabled (ipfix and sflow have it): the copies taken by the mirror workers, and the mirror queue full
     for proto in ("ipfix", "sflow"):
         for k, mode in enumerate(["on", "full"] * (3 if thorough else 1)):
